@@ -73,7 +73,7 @@ Qed.
 
 Lemma cspec_initialize strict res : cspec (initialize strict res).
 Proof.
-  intros st. unfold initialize. destruct strict; [cbn; auto|].
+  intros st. unfold initialize.
   destruct (Nat.eqb (length res) 5); cbn; unfold view_of; cbn; repeat split; try reflexivity; try discriminate.
 Qed.
 
